@@ -10,6 +10,7 @@ import (
 func init() {
 	vr.Register("Harness_C04_links", Harness_C04_links)
 	vr.Register("Harness_C04_nolink", Harness_C04_nolink)
+	vr.Register("Harness_C04_two_pairs", Harness_C04_two_pairs)
 }
 
 func hFindVehicle(vs []Vehicle, id *VehicleID) int {
@@ -131,4 +132,64 @@ func Harness_C04_nolink() {
 		return
 	}
 	vr.Assert("C04.nolink", r.Trips[0].Vehicle == nil && r.Vehicles[0].Trip == nil)
+}
+
+// Two associations in one feed - (trip A, vehicle A) and (trip B, vehicle B) -
+// with both vehicles named the same way (id, label only or licence plate
+// only) by distinct values, each association expressed by a trip update or by
+// a vehicle position, in either entity order: two trips, two vehicles, and each
+// pair's links lead to each other.
+func Harness_C04_two_pairs() {
+	kind := hConcretize(vr.Int("vehicle.kind", 1, 3), 1, 3)
+	var vds [2]*gtfsrt.VehicleDescriptor
+	var want [2]*VehicleID
+	var tids [2]string
+	for i := 0; i < 2; i++ {
+		vds[i], want[i] = hVehicleDescriptor(vr.T("vehicle", i), kind)
+		tids[i] = vr.Str(vr.T("trip", i, ".id"))
+	}
+	vr.Assume(tids[0] != "" && tids[1] != "" && tids[0] != tids[1])
+	vr.Assume(want[0].ID != want[1].ID || want[0].Label != want[1].Label || want[0].LicensePlate != want[1].LicensePlate)
+	var ents []*gtfsrt.FeedEntity
+	for i := 0; i < 2; i++ {
+		id := vr.T("e", i)
+		tid := tids[i]
+		td := &gtfsrt.TripDescriptor{TripId: &tid}
+		if vr.Bool(vr.T("pair", i, ".by_vehicle_position")) {
+			ents = append(ents, &gtfsrt.FeedEntity{Id: &id, Vehicle: &gtfsrt.VehiclePosition{Trip: td, Vehicle: vds[i]}})
+		} else {
+			ents = append(ents, &gtfsrt.FeedEntity{Id: &id, TripUpdate: &gtfsrt.TripUpdate{Trip: td, Vehicle: vds[i]}})
+		}
+	}
+	if vr.Bool("b_first") {
+		ents[0], ents[1] = ents[1], ents[0]
+	}
+	r, err := ParseRealtime(vr.Marshal(&gtfsrt.FeedMessage{Header: hHeader("header"), Entity: ents}), &ParseRealtimeOptions{})
+	vr.Assert("C04.returns", err == nil && r != nil)
+	if err != nil || r == nil {
+		return
+	}
+	vr.Assert("C04.count", len(r.Trips) == 2 && len(r.Vehicles) == 2)
+	if len(r.Trips) != 2 || len(r.Vehicles) != 2 {
+		return
+	}
+	for i := 0; i < 2; i++ {
+		for k := range r.Trips {
+			t := &r.Trips[k]
+			if t.ID.ID != tids[i] {
+				continue
+			}
+			vr.Assert("C04.link.trip2vehicle", t.Vehicle != nil)
+			if t.Vehicle == nil {
+				continue
+			}
+			vr.Assert("C04.pair.vehicle", vr.DeepEq(t.Vehicle.ID, want[i]))
+			vr.Assert("C04.back.vehicle2trip", t.Vehicle.Trip != nil && t.Vehicle.Trip.ID.ID == tids[i])
+			at := hFindVehicle(r.Vehicles, want[i])
+			vr.Assert("C04.pair.listed", at >= 0)
+			if at >= 0 {
+				vr.Assert("C04.content.vehicle", vr.DeepEq(*t.Vehicle, r.Vehicles[at]))
+			}
+		}
+	}
 }
